@@ -126,6 +126,56 @@ func emptyMapTypeDiff(a, b cty.Value) bool {
 	return false
 }
 
+// explainedByEmptyMap: every place where v's type does not conform to want is a KNOWN, non-null, EMPTY
+// map standing where a map type is wanted - the shape of the pinned finding (MapValEmpty of the nested
+// type for a multi-label BlockMapSpec without blocks). Unknown maps, non-empty maps and any other
+// difference are not explained by it.
+func explainedByEmptyMap(v cty.Value, want cty.Type) bool {
+	v, _ = v.Unmark()
+	vt := v.Type()
+	if len(vt.TestConformance(want)) == 0 {
+		return true
+	}
+	if !v.IsKnown() || v.IsNull() {
+		return false
+	}
+	if vt.IsMapType() && want.IsMapType() && v.LengthInt() == 0 {
+		return true
+	}
+	switch {
+	case vt.IsObjectType() && want.IsObjectType():
+		for name, at := range want.AttributeTypes() {
+			if !vt.HasAttribute(name) || !explainedByEmptyMap(v.GetAttr(name), at) {
+				return false
+			}
+		}
+		return len(vt.AttributeTypes()) == len(want.AttributeTypes())
+	case vt.IsTupleType() && want.IsTupleType():
+		wts := want.TupleElementTypes()
+		if len(wts) != v.LengthInt() {
+			return false
+		}
+		for i, wt := range wts {
+			if !explainedByEmptyMap(v.Index(cty.NumberIntVal(int64(i))), wt) {
+				return false
+			}
+		}
+		return true
+	case (vt.IsListType() && want.IsListType()) || (vt.IsSetType() && want.IsSetType()) || (vt.IsMapType() && want.IsMapType()):
+		if v.LengthInt() == 0 {
+			return false
+		}
+		for it := v.ElementIterator(); it.Next(); {
+			_, ev := it.Element()
+			if !explainedByEmptyMap(ev, want.ElementType()) {
+				return false
+			}
+		}
+		return true
+	}
+	return false
+}
+
 func findSpec(s *gspec, pred func(*gspec) bool) bool {
 	if pred(s) {
 		return true
@@ -416,7 +466,7 @@ func runJob(j job, ctx *hcl.EvalContext, rep *hv.Report, cf *hv.CaseFile) {
 				switch {
 				case hasSummary(o.o.diags, "Unconsistent argument types"):
 					kind = "blocklist-dynamic-ununifiable"
-				case kinds["blockmap(multi-label)"]:
+				case kinds["blockmap(multi-label)"] && explainedByEmptyMap(o.o.val, ity):
 					kind = "blockmap-multilabel-empty-type"
 				}
 				fail(kind, fmt.Sprintf("%s returned %#v; implied type %#v: %v", o.name, o.o.val.Type(), ity, errs[0]))
